@@ -410,6 +410,21 @@ def _b_transfcoll(w, ms, dt="f"):
     return TransformationCollection(_arr(ms, dt))
 
 
+def _b_ctransf(w, re, im):
+    return Transformation(np.array(re, dtype=float) + 1j * np.array(im, dtype=float))
+
+
+def _b_ctransfcoll(w, re, im):
+    return TransformationCollection(np.array(re, dtype=float) + 1j * np.array(im, dtype=float))
+
+
+def _b_cquadric(w, re, im, dual=False, coll=False):
+    m = np.array(re, dtype=float) + 1j * np.array(im, dtype=float)
+    if coll:
+        return QuadricCollection(m, is_dual=dual)
+    return (Conic if m.shape[-1] == 3 else Quadric)(m, is_dual=dual)
+
+
 def _b_transfstack(w, ts):
     """a collection built from Transformation objects"""
     return TransformationCollection([w.get(t) for t in ts])
@@ -476,7 +491,7 @@ def _b_simplex(w, pts):
 
 
 def _b_tensor(w, a, cov=True, dt="i", layout=None):
-    arr = _arr(a, dt)
+    arr = np.array(a).astype(DT[dt])
     if layout == "F":
         arr = np.asfortranarray(arr)
     elif layout == "T" and arr.ndim >= 2:
@@ -495,7 +510,7 @@ def _b_ctensor(w, re, im, cov=True):
 
 
 def _b_tensorcoll(w, a, cov=True, rank=1, dt="i"):
-    return TensorCollection(_arr(a, dt), covariant=cov, tensor_rank=rank)
+    return TensorCollection(np.array(a).astype(DT[dt]), covariant=cov, tensor_rank=rank)
 
 
 def _b_eps(w, n, cov=True):
